@@ -605,12 +605,19 @@ func nilTolerantFormMethods(c *cx) map[string]bool {
 		name := strings.TrimPrefix(f.Short, "form.(*Data).")
 		in := &info{}
 		ms[name] = in
-		if l := stripNoops(f.Decl.Body.List); len(l) > 0 {
-			if ifs, ok := l[0].(*ast.IfStmt); ok {
-				if be, ok := ast.Unparen(ifs.Cond).(*ast.BinaryExpr); ok && be.Op == token.EQL && (f.Norm(be.X, nil) == "recv" && f.Norm(be.Y, nil) == "nil" || f.Norm(be.Y, nil) == "recv" && f.Norm(be.X, nil) == "nil") && listReturns(ifs.Body.List) {
+		for _, st := range stripNoops(f.Decl.Body.List) {
+			if as, ok := st.(*ast.AssignStmt); ok && len(as.Lhs) == 1 {
+				// a named condition in front of the test
+				if t := f.Info().TypeOf(as.Lhs[0]); t != nil && t.String() == "bool" {
+					continue
+				}
+			}
+			if ifs, ok := st.(*ast.IfStmt); ok {
+				if be, ok := ast.Unparen(resolveBool(f, ifs.Cond)).(*ast.BinaryExpr); ok && be.Op == token.EQL && (f.Norm(be.X, nil) == "recv" && f.Norm(be.Y, nil) == "nil" || f.Norm(be.Y, nil) == "recv" && f.Norm(be.X, nil) == "nil") && listReturns(ifs.Body.List) {
 					in.guard = true
 				}
 			}
+			break
 		}
 		ast.Inspect(f.Body, func(nd ast.Node) bool {
 			sel, ok := nd.(*ast.SelectorExpr)
